@@ -481,7 +481,8 @@ def c02(c):
     quick = c.tier == "quick"
     c.small("MC_Proofs", cfg="MC_Proofs_dis1.cfg" if quick else "MC_Proofs.cfg", timeout=7200)
     c.small("MC_IPA", cfg="MC_IPA.cfg")
-    files = mp_runs(c, "mp_perturb", [(vlib.NCPU, "")])
+    # the same programs also with fewer Ps than CPUs (GOMAXPROCS=3 on all CPUs; thorough: also GOMAXPROCS=1 and 5 CPUs)
+    files = mp_runs(c, "mp_perturb", [(vlib.NCPU, ""), (vlib.NCPU, "3")] if quick else [(vlib.NCPU, ""), (vlib.NCPU, "3"), (vlib.NCPU, "1"), (5, "")])
     files += mp_runs(c, "ipa_few", [(vlib.NCPU, "")])
     c.validate("Trace_Proof", files, heap="6g", timeout=7200)
     kinds = set(k.split("/")[1] for k in c.judged if k.startswith("verify/"))
@@ -551,6 +552,22 @@ def c13(c):
     c.sample_events(files, 2, keep=lambda e: e["op"] not in ("start", "end"))
     # (b) frame conditions of every call of the group-family histories (slots outside the frame bit for bit unchanged)
     group_pipeline(c, nprog_quick=120, nprog_thorough=5000)
+    # (b') the same slices handed over again after in-place changes, and calls after histories of other calls (MSM, Commit): results must follow the
+    #      current contents only
+    mprogs = c.generate("Gen_MSM", name="prog-msm")
+    msub = os.path.join(c.dir, "prog-msm-hist.jsonl")
+    with open(msub, "w") as fh:
+        for ln in open(mprogs):
+            if json.loads(ln)["kind"] in ("reuse", "history", "mismatchhist"):
+                fh.write(ln)
+    c.validate("Trace_MSM", c.drive("msm", msub, name="tr-msm-hist", shards=8, timeout=3600), heap="6g", timeout=3600)
+    cprogs = c.generate("Gen_Commit", name="prog-commit")
+    csub = os.path.join(c.dir, "prog-commit-reuse.jsonl")
+    with open(csub, "w") as fh:
+        for ln in open(cprogs):
+            if json.loads(ln)["kind"] in ("reuse", "crs"):
+                fh.write(ln)
+    c.validate("Trace_Commit", c.drive("commit", csub, name="tr-commit-reuse", shards=4), heap="6g", timeout=3600)
     # (c) proofs: commitments only re-normalised, polynomials / indices / statements / proofs unchanged
     pf = mp_runs(c, "mp_arrival" if quick else "mp_honest", [(vlib.NCPU, "")])
     c.validate("Trace_Proof", pf, heap="6g", timeout=7200)
